@@ -801,6 +801,8 @@ def execute(plan, record_last=False, record_lines=False):
             cfg = w.cfgs[pname]
             fault = inc.get("fault")
             same = bool(inc.get("same_runner")) and w.runner is not None and w.runner_pname == pname
+            if inc.get("live_setitem") is not None and w.runner is not None and w.runner_pname != pname and inc["live_setitem"] in cfg["fixed"]:
+                same = True        # the previous runner OBJECT lives on (one parameter is re-assigned on it): it keeps the rep_max it has
             rg_ = inc.get("regrid")
             if rg_ and same and cfg.get("results_name") is None and not plan.get("mutating_user") and (
                     rg_.get("unmark") in cfg["unpacked"] or rg_.get("reverse_in_hook") in cfg["unpacked"]
